@@ -478,6 +478,28 @@ def run_special(task):
                     v.config_label = "overflow,lbs=%d,distance=%s" % (lbs, dist)
                     viols.append(v)
             drv.drop(cid)
+    # (b') a run whose removed and whose added lines each fit the line buffer is paired as a whole: N removed lines that
+    # each have a similar i-th added line, N = line-buffer-size and N - 1 (with N + 1 lines the buffer overflows: the rest of the run is unpaired by design)
+    for lbs in (2, 5, 32):
+        o = {"max-line-distance": "0.6", "line-buffer-size": str(lbs), "width": "variable", "hunk-header-style": "110",
+             "hunk-header-decoration-style": "none"}
+        args = build_args(base_opts(o))
+        cid = drv.mkconfig(args)
+        for nm in (lbs - 1, lbs):
+            data = head + b"@@ -1,%d +1,%d @@\n" % (nm, nm) + b"".join(b"-step %02d old value\n" % i for i in range(1, nm + 1)) + \
+                b"".join(b"+step %02d new value\n" % i for i in range(1, nm + 1))
+            r = drv.render1(cid, data)
+            n += 1
+            rows = [row for row in term.decode(r.out) if obs.observe_row(row).kind in ("plus", "mixed")]
+            unpaired = [row.text for row in rows if not (bgs(row) & {("i", 105), ("i", 106)})]
+            if (unpaired or len(rows) != nm) and not any(v.klass == "run-within-buffer-not-paired" for v in viols):
+                v = Violation("run-within-buffer-not-paired", "%d removed and %d similar added lines (line-buffer-size %d, each side "
+                              "within the buffer): added line(s) %r are shown without a partner" % (nm, nm, lbs, unpaired[:3]),
+                              data.split(b"\n")[:-1])
+                v.args = args
+                v.config_label = "within-buffer,lbs=%d" % lbs
+                viols.append(v)
+        drv.drop(cid)
     # (c) what a pair looks like does not depend on the runs before it: every sequence of <= 6 removed / added /
     # unchanged lines (ending in an added or unchanged line, so that the probe pair is a run of its own), for line
     # buffers of 0, 1 and 2 lines - the sequences include every way of filling the buffers exactly, overflowing them,
